@@ -314,6 +314,13 @@ func c13BuildSpecials() {
 	} {
 		add("pipe-head/expr", e)
 	}
+	// the strict comparison operators are data inside a quoted string
+	for _, e := range []c13E{
+		c13Str("a===b"), c13Str("x!==y"), c13Bin("==", c13Str("a===b"), s1), c13Bin("+", s1, c13Str("!==")), c13Pipe(c13Str("a===b"), c13Call("upper")), c13Call("hCat", s1, c13Str("===")),
+		c13Tern(c13P("bt"), c13Str("is === ok"), c13Str("zed")),
+	} {
+		add("strict-operator-text-in-literal", e)
+	}
 	// calls joined by an operator written without blanks: add(1,2)+add(3,4)
 	for _, e := range []c13E{
 		c13Bin("+", c13Call("hDbl", n1), c13Call("hSub", n1, n2)), c13Bin("*", c13Call("hSub", n1, c13Int(1)), c13Int(2)), c13Bin(">", c13Call("hDbl", n1), c13Call("hSub", n2, c13Int(1))),
